@@ -5,6 +5,7 @@ import (
 	"fmt"
 	"os"
 	"path/filepath"
+	"sort"
 	"strings"
 	"sync"
 	"testing"
@@ -72,6 +73,47 @@ func hostilePrograms() map[string]*Program {
 				{Mode: ModeSelf, Slow: 2, UnsubAfter: 3, Blocked: true, Polls: 5},
 				{Mode: ModeExt, Slow: 1, ExtAt: 9},
 			}},
+	}
+}
+
+// scopePrograms are hand-written programs aimed at SubscriptionScope: several
+// goroutines close the same scope at the same moment, closers send as soon as
+// their Close has returned, tracked subscriptions whose Unsubscribe is slow,
+// several scopes over one feed. They are run against the real feed and scope
+// by TestScopeCorpus and are the programs of the scope self-test.
+func scopePrograms() map[string]*Program {
+	return map[string]*Program{
+		"two-closers-many-tracked": {Procs: 4, Plan: []uint8{1, 0, 2, 0, 1, 3}, Runs: 30,
+			Senders: []Sender{{Count: 12, Gap: 1}, {Count: 12, Delay: 2}},
+			Subs: []Sub{
+				{Mode: ModeScope, Buf: 4}, {Mode: ModeScope, Buf: 2, UnsubYields: 2}, {Mode: ModeScope, Buf: 8, Slow: 1},
+				{Mode: ModeScope, UnsubYields: 4}, {Mode: ModeScope, Buf: 1}, {Mode: ModeScope, Buf: 3, UnsubYields: 1},
+				{Mode: ModeNever, Buf: 4},
+			},
+			Closers: []Closer{{At: 8, Probe: true, Count: true}, {At: 8, Probe: true}}},
+		"three-closers-one-proc": {Procs: 1, Plan: []uint8{2, 1, 0, 3}, Runs: 30,
+			Senders: []Sender{{Count: 10}, {Count: 10, Gap: 2}},
+			Subs: []Sub{
+				{Mode: ModeScope, Buf: 8, UnsubYields: 3}, {Mode: ModeScope, Buf: 8}, {Mode: ModeScopeSelf, Buf: 2, UnsubAfter: 4},
+				{Mode: ModeScope, Buf: 1, Slow: 2, UnsubYields: 1}, {Mode: ModeNever},
+			},
+			Closers: []Closer{{At: 5, Probe: true}, {At: 5, Yields: 1, Probe: true, Count: true}, {At: 6, Yields: 2, Probe: true}}},
+		"two-scopes-stoppers": {Procs: 16, Plan: []uint8{0, 1, 1, 0, 2}, Runs: 30, Scopes: 2,
+			Senders: []Sender{{Count: 9}, {Count: 9, Gap: 1}, {Count: 9, Delay: 3}},
+			Subs: []Sub{
+				{Mode: ModeScopeStop, UnsubAfter: 3, Scope: 0}, {Mode: ModeScope, Buf: 2, Scope: 0, UnsubYields: 5},
+				{Mode: ModeScope, Buf: 4, Scope: 1}, {Mode: ModeScopeStop, UnsubAfter: 6, Buf: 1, Scope: 1, UnsubYields: 2},
+				{Mode: ModeScope, Scope: 1, SubAt: 4}, {Mode: ModeScopeSelf, Scope: 0, UnsubAfter: 2, Blocked: true, Polls: 2},
+				{Mode: ModeSelf, UnsubAfter: 5, Buf: 1},
+			},
+			Closers: []Closer{{Scope: 0, At: 27, Probe: true}, {Scope: 0, At: 27, Probe: true}, {Scope: 1, At: 27, Count: true}, {Scope: 1, At: 27, Yields: 1, Probe: true}}},
+		"late-trackers": {Procs: 2, Plan: []uint8{1, 2}, Runs: 30,
+			Senders: []Sender{{Count: 20, Gap: 1}},
+			Subs: []Sub{
+				{Mode: ModeScope, Buf: 2}, {Mode: ModeScope, SubAt: 9, Buf: 2}, {Mode: ModeScope, SubAt: 10, UnsubYields: 2},
+				{Mode: ModeScope, SubAt: 11, Buf: 1}, {Mode: ModeScopeSelf, SubAt: 10, UnsubAfter: 1}, {Mode: ModeNever, Buf: 2},
+			},
+			Closers: []Closer{{At: 10, Probe: true, Count: true}, {At: 10, Probe: true}, {At: 12, Probe: true}}},
 	}
 }
 
@@ -202,12 +244,145 @@ func (s *toySub) Unsubscribe() {
 
 func (s *toySub) Err() <-chan error { return s.err }
 
+// toyScope is a straightforward scope (slice + mutex). With bug == "" Close
+// holds the lock while it unsubscribes, so nobody can find the scope closed
+// before everything is unsubscribed; "close-returns-early" gives the lock up
+// first.
+type toyScope struct {
+	bug    string
+	mu     sync.Mutex
+	subs   []*toyScopeSub
+	closed bool
+}
+
+type toyScopeSub struct {
+	sc *toyScope
+	s  event.Subscription
+}
+
+func (sc *toyScope) Track(s event.Subscription) event.Subscription {
+	sc.mu.Lock()
+	defer sc.mu.Unlock()
+	if sc.closed {
+		return nil
+	}
+	w := &toyScopeSub{sc, s}
+	sc.subs = append(sc.subs, w)
+	return w
+}
+
+func (sc *toyScope) Close() {
+	sc.mu.Lock()
+	if sc.closed {
+		sc.mu.Unlock()
+		return
+	}
+	sc.closed = true
+	subs := sc.subs
+	sc.subs = nil
+	if sc.bug == "close-returns-early" {
+		sc.mu.Unlock()
+	} else {
+		defer sc.mu.Unlock()
+	}
+	for _, w := range subs {
+		w.s.Unsubscribe()
+	}
+}
+
+func (sc *toyScope) Count() int {
+	sc.mu.Lock()
+	defer sc.mu.Unlock()
+	return len(sc.subs)
+}
+
+func (w *toyScopeSub) Unsubscribe() {
+	w.s.Unsubscribe()
+	w.sc.mu.Lock()
+	defer w.sc.mu.Unlock()
+	for i, x := range w.sc.subs {
+		if x == w {
+			w.sc.subs = append(w.sc.subs[:i:i], w.sc.subs[i+1:]...)
+			break
+		}
+	}
+}
+
+func (w *toyScopeSub) Err() <-chan error { return w.s.Err() }
+
+func toyWorld(feedBug, scopeBug string) World {
+	return World{
+		Feed:  func() FeedAPI { return &toyFeed{bug: feedBug} },
+		Scope: func() ScopeAPI { return &toyScope{bug: scopeBug} },
+	}
+}
+
+// TestScopeCorpus runs the hand-written scope programs against the real feed
+// and scope.
+func TestScopeCorpus(t *testing.T) {
+	progs := scopePrograms()
+	names := make([]string, 0, len(progs))
+	for name := range progs {
+		names = append(names, name)
+	}
+	sort.Strings(names)
+	for _, name := range names {
+		p := progs[name]
+		if err := p.Validate(); err != nil {
+			t.Fatalf("%s: %v", name, err)
+		}
+		runs := p.Runs
+		if ev.Thorough() {
+			runs *= 10
+		}
+		ev.Label("corpus")
+		checkProgram(t, "TestScopeCorpus", p, runs)
+	}
+}
+
+// TestScopeSelfTest: silent on the independent correct scope over the correct
+// toy feed AND over the real feed; a scope whose Close returns to a second
+// caller while the first one is still unsubscribing must be flagged with (5).
+func TestScopeSelfTest(t *testing.T) {
+	progs := scopePrograms()
+	for name, p := range progs {
+		for _, w := range []World{toyWorld("", ""), {Feed: realWorld.Feed, Scope: func() ScopeAPI { return &toyScope{} }}} {
+			if cf, _ := runProgram(p, 15, w); cf != nil {
+				t.Fatalf("false alarm on the reference scope, program %s:\n%s", name, render(cf))
+			}
+		}
+	}
+	ev.Label("selftest:reference-scope-clean")
+	found := false
+	var seen []string
+search:
+	for round := 0; round < 20; round++ {
+		for _, name := range []string{"two-closers-many-tracked", "three-closers-one-proc", "two-scopes-stoppers", "late-trackers"} {
+			cf, _ := runProgram(progs[name], 10, World{Feed: realWorld.Feed, Scope: func() ScopeAPI { return &toyScope{bug: "close-returns-early"} }})
+			if cf == nil {
+				continue
+			}
+			for _, v := range cf.Violations {
+				if strings.HasPrefix(v, "(5)") {
+					found = true
+					break search
+				}
+			}
+			seen = append(seen, fmt.Sprint(cf.Violations))
+		}
+	}
+	if !found {
+		t.Fatalf("self-test: a scope whose Close returns early to a concurrent caller was not flagged with clause (5) (other violations seen: %v)", seen)
+	}
+	ev.Label("selftest:broken-scope-flagged")
+}
+
 // TestHarnessSelfTest: the engine + judge must stay silent on the independent
 // correct feed and must flag every broken variant with the expected clause.
 func TestHarnessSelfTest(t *testing.T) {
 	progs := hostilePrograms()
 	for name, p := range progs {
-		cf, _ := runProgram(p, 15, func() FeedAPI { return &toyFeed{} })
+		cf, _ := runProgram(p, 15, toyWorld("", ""))
 		if cf != nil {
 			t.Fatalf("false alarm on the reference feed, program %s:\n%s", name, render(cf))
 		}
@@ -226,7 +401,7 @@ func TestHarnessSelfTest(t *testing.T) {
 	search:
 		for round := 0; round < 20 && !found; round++ {
 			for _, name := range []string{"four-senders-six-subs", "blocked-unbuffered", "inbox-churn", "scope-stoppers", "late-subscribers"} {
-				cf, _ := runProgram(progs[name], 10, func() FeedAPI { return &toyFeed{bug: bug} })
+				cf, _ := runProgram(progs[name], 10, toyWorld(bug, ""))
 				if cf == nil {
 					continue
 				}
